@@ -450,7 +450,9 @@ def judge_negotiation(level, elements, resp_headers):
         elif not usable:
             viol.append(("deflate/negotiation-accepts-invalid-offer:" + pmd[0][0].split(":", 1)[1], detail))
         else:
-            for why in illegal_for(resp, usable[0][1]):
+            # the offer element that explains the response best (fewest discrepancies; first on a tie)
+            best = min((illegal_for(resp, e) for c, e in usable), key=len)
+            for why in best:
                 viol.append(("deflate/negotiation-" + why, detail))
     neg = dict(cmwb=int(resp[P_CMWB]) if P_CMWB in resp else 15,
                smwb=int(resp[P_SMWB]) if P_SMWB in resp else 15,
